@@ -52,6 +52,11 @@ func genC08(r *kernel.Rand) *kernel.Scenario {
 			"agree", r.Weighted([]int{2, 1}), "challenge", cd, "pn", r.Intn(2), "an", r.Intn(2), "aux", aux, "zero", r.Intn(2))
 		sc.Steps = append(sc.Steps, st)
 		if r.Bool(0.3) {
+			if r.Bool(0.35) {
+				// first an attempt that the proposer's own client refuses (it asks for
+				// more than the parent holds); the honest opening after it must work
+				sc.Steps = append(sc.Steps, kernel.St("sub-open", "a", r.Range(0, 60), "b", r.Range(0, 60), "app", r.Intn(2), "over", 1))
+			}
 			sc.Steps = append(sc.Steps, kernel.St("sub-open", "a", r.Range(0, 60), "b", r.Range(0, 60), "app", r.Intn(2)))
 		}
 	}
@@ -166,6 +171,15 @@ func execC08(t *testing.T, sc *kernel.Scenario, trace bool) *kernel.Result {
 					}
 				}
 			case "sub-open":
+				if len(p.chans) > 0 && st.Int("over") == 1 {
+					before := len(p.subs)
+					p.subOpen(i, st)
+					if len(p.subs) > before {
+						s.Fail("C08.channel-created-from-bad-proposal@own", "a sub-channel asking for more funds than the parent holds was opened")
+					}
+					s.Count("fault.own-proposal-refused", 1)
+					continue
+				}
 				if len(p.chans) > 0 {
 					if p.chans[0][0].Idx() == 0 {
 						honestToH++ // the parent's index 0 (node A here) proposes to H
